@@ -5,6 +5,7 @@ import (
 	"fmt"
 	"net/http"
 	"net/http/cookiejar"
+	"net/http/httptest"
 	"net/url"
 	"slices"
 	"sort"
@@ -17,6 +18,7 @@ import (
 	"pgregory.net/rapid"
 
 	"github.com/zitadel/oidc/v3/pkg/client"
+	"github.com/zitadel/oidc/v3/pkg/client/profile"
 	"github.com/zitadel/oidc/v3/pkg/client/rp"
 	"github.com/zitadel/oidc/v3/pkg/client/rs"
 	"github.com/zitadel/oidc/v3/pkg/client/tokenexchange"
@@ -58,6 +60,8 @@ var stepKinds = []struct {
 	{"prov", 6}, {"issuer_fn", 3}, {"rp_oidc", 4}, {"rp_oauth", 2}, {"rs", 2}, {"te", 2}, {"keyset", 3}, {"discover", 2},
 	{"endsession", 4}, {"revoke", 3}, {"userinfo", 2}, {"codeexchange", 2}, {"introspect", 1}, {"exchange", 1},
 	{"devicepoll", 2}, {"op_requests", 2},
+	// helpers that take arguments of reference type; they are handed the long-lived argument objects of the case (args_test.go)
+	{"clientcreds", 4}, {"authurl", 1}, {"deviceauth", 2}, {"refresh", 1}, {"callraw", 2}, {"tokensource", 1}, {"formrequest", 1}, {"handlers", 1},
 }
 
 var stepKindList = func() []string {
@@ -135,6 +139,15 @@ func genOrder(t *rapid.T) Case {
 			s.P = rapid.IntRange(0, 3).Draw(t, "p")
 			s.Client = rapid.SampledFrom([]int{1, 1, 2, 0, 0}).Draw(t, "client")
 			s.Opt = rapid.IntRange(0, 7).Draw(t, "opt")
+			if s.K == "rp_oidc" || s.K == "rp_oauth" {
+				// how the client is registered: with a secret (0), with a key = rp.WithJWTProfile (8), public (16)
+				s.Opt |= rapid.SampledFrom([]int{0, 0, 8, 8, 16}).Draw(t, "registration")
+			}
+		case "clientcreds", "authurl", "deviceauth", "refresh", "callraw", "tokensource", "formrequest", "handlers":
+			s.I = rapid.IntRange(0, 3).Draw(t, "i")
+			s.P = rapid.IntRange(0, 3).Draw(t, "p")
+			s.Client = rapid.SampledFrom([]int{0, 0, 1, 1, 2}).Draw(t, "client")
+			s.Opt = rapid.IntRange(0, 7).Draw(t, "opt")
 		default:
 			s.I = rapid.IntRange(0, 3).Draw(t, "i")
 			s.P = rapid.IntRange(0, 3).Draw(t, "p")
@@ -189,6 +202,8 @@ type rpInst struct {
 	p      *provInst
 	client int
 	oauth  bool
+	// how the client is registered at the provider: "web" (secret), keyWebID (key and secret, rp.WithJWTProfile), "native" (public)
+	clientID string
 }
 
 type rsInst struct {
@@ -224,6 +239,8 @@ type orderEnv struct {
 	conseq   map[string]bool
 	lastFn   *issInst // the issuer function the current step built
 	devAll   []devAnswer // every device authorization answer of the case
+	args     *callerArgs // the long-lived argument objects of the case (args_test.go)
+	owned    []ownedArg  // further caller-supplied objects, entered when they were handed over (option lists, endpoints, cookie handlers)
 	// sticky: names that changed at some step of this case (a later step may put the old value back, but instances built
 	// or used in between keep what they saw)
 	everChanged map[string]bool
@@ -269,7 +286,22 @@ func (e *orderEnv) take() snapshot {
 	for _, l := range e.hdrLists {
 		s[l.name] = sliceState(l.l)
 	}
+	if e.args != nil {
+		for k, v := range e.args.state() {
+			s[k] = v
+		}
+	}
+	for _, o := range e.owned {
+		s[o.name] = deepState(o.obj)
+	}
 	return s
+}
+
+// own enters a caller-supplied object into the snapshots at the moment it is handed to the library.
+func (e *orderEnv) own(name string, obj any) {
+	e.owned = append(e.owned, ownedArg{name, obj})
+	e.prev[name] = deepState(obj)
+	e.start[name] = e.prev[name]
 }
 
 func orderClients() []*vkit.ClientSpec {
@@ -331,6 +363,7 @@ func (e *orderEnv) newProvider(s Step) (*provInst, error) {
 	} else {
 		for _, n := range names {
 			ep := mkEP(p.issuer, s.EP[n])
+			e.own(fmt.Sprintf("arg:endpoint#%d/%s", idx, n), ep)
 			setEndpoint(&legacyEP, n, ep)
 			if p.router == "provider" {
 				opts = append(opts, endpointOption(n, ep))
@@ -356,6 +389,8 @@ func (e *orderEnv) newProvider(s Step) (*provInst, error) {
 		e.ownedHeaders(fmt.Sprintf("provider-%d", idx), hdrs)
 	}
 	storage := wrapStorage(p.store.Shaped(vkit.FullCaps))
+	// the option list is the caller's as well (handed over as opts...)
+	e.own(fmt.Sprintf("arg:provider-options#%d", idx), opts)
 	var err error
 	switch {
 	case s.Ctor == 1 && p.spec.Iss == "":
@@ -442,6 +477,9 @@ type finding struct {
 }
 
 func rootOf(name string) string {
+	if strings.HasPrefix(name, "arg:") {
+		return argRoot(name)
+	}
 	for _, sep := range []string{".CheckRedirect", ".Transport", ".Jar", ".Timeout"} {
 		if i := strings.Index(name, sep); i > 0 {
 			return name[:i] + sep
@@ -808,16 +846,28 @@ func (e *orderEnv) newRP(s Step) (*rpInst, error) {
 		opts = append(opts, rp.WithHTTPClient(e.clientOf(s.Client)))
 	}
 	if s.Opt&1 == 1 {
-		opts = append(opts, rp.WithPKCE(httphelper.NewCookieHandler([]byte("0123456789abcdef0123456789abcdef"), []byte("fedcba9876543210"), httphelper.WithUnsecure())))
+		ch := httphelper.NewCookieHandler([]byte("0123456789abcdef0123456789abcdef"), []byte("fedcba9876543210"), httphelper.WithUnsecure())
+		e.own(fmt.Sprintf("arg:cookie-handler#%d", len(e.rps)), ch)
+		opts = append(opts, rp.WithPKCE(ch))
 	}
+	// how the client is registered at the provider
+	clientID, secret := "web", "web-secret"
+	switch {
+	case s.Opt&8 == 8:
+		clientID, secret = keyWebID, keyWebSecret
+		opts = append(opts, rp.WithJWTProfile(rp.SignerFromKeyAndKeyID(e.args.webKeyPEM, keyWebKID)))
+	case s.Opt&16 == 16:
+		clientID, secret = "native", ""
+	}
+	e.res.Label("rp-registration:" + map[string]string{"web": "secret", keyWebID: "key+secret", "native": "public"}[clientID])
 	if s.K == "rp_oauth" {
-		cfg := &oauth2.Config{ClientID: "web", ClientSecret: "web-secret", RedirectURL: rpRedirect, Scopes: []string{"openid"},
+		cfg := &oauth2.Config{ClientID: clientID, ClientSecret: secret, RedirectURL: rpRedirect, Scopes: []string{"openid"},
 			Endpoint: oauth2.Endpoint{AuthURL: p.issuer + expectedPath(p.ep, "authorization"), TokenURL: p.issuer + expectedPath(p.ep, "token")}}
 		r, err := rp.NewRelyingPartyOAuth(cfg, opts...)
 		if err != nil {
 			return nil, err
 		}
-		ri := &rpInst{r: r, p: p, client: s.Client, oauth: true, fp: rpBehaviour(r)}
+		ri := &rpInst{r: r, p: p, client: s.Client, oauth: true, clientID: clientID, fp: rpBehaviour(r)}
 		e.rps = append(e.rps, ri)
 		return ri, nil
 	}
@@ -832,11 +882,12 @@ func (e *orderEnv) newRP(s Step) (*rpInst, error) {
 	}
 	scopes := []string{"openid", "profile", "offline_access"}
 	e.scopes = append(e.scopes, scopes)
-	r, err := rp.NewRelyingPartyOIDC(e.ctx, p.issuer, "web", "web-secret", rpRedirect, scopes, opts...)
+	e.own(fmt.Sprintf("arg:rp-options#%d", len(e.rps)), opts)
+	r, err := rp.NewRelyingPartyOIDC(e.ctx, p.issuer, clientID, secret, rpRedirect, scopes, opts...)
 	if err != nil {
 		return nil, err
 	}
-	ri := &rpInst{r: r, p: p, client: s.Client, fp: rpBehaviour(r)}
+	ri := &rpInst{r: r, p: p, client: s.Client, clientID: clientID, fp: rpBehaviour(r)}
 	e.rps = append(e.rps, ri)
 	return ri, nil
 }
@@ -853,7 +904,7 @@ func (e *orderEnv) newRS(s Step) (*rsInst, error) {
 	var r rs.ResourceServer
 	var err error
 	if s.Opt&2 == 2 && !(p.pcfg != nil && p.pcfg.NoPKJWT) { // a resource server is registered with an authentication method its provider offers
-		r, err = rs.NewResourceServerJWTProfile(e.ctx, p.issuer, "apijwt", "kapi", vkit.Key("rsa3").PKCS1PEM(), opts...)
+		r, err = rs.NewResourceServerJWTProfile(e.ctx, p.issuer, "apijwt", "kapi", e.args.apiKeyPEM, opts...)
 	} else {
 		r, err = rs.NewResourceServerClientCredentials(e.ctx, p.issuer, "api", "api-secret", opts...)
 	}
@@ -904,6 +955,24 @@ func (e *orderEnv) anRP(s Step) (*rpInst, error) {
 	}
 	return pick(oidcRPs, s.I), nil
 }
+
+// rpFor returns relying party #i of the case (OIDC or OAuth, whatever its registration); when there is none yet, one is
+// constructed whose registration the step chooses (bit 4 of Opt: with a key).
+func (e *orderEnv) rpFor(s Step, oidcOnly bool) (*rpInst, error) {
+	var l []*rpInst
+	for _, r := range e.rps {
+		if !(oidcOnly && r.oauth) {
+			l = append(l, r)
+		}
+	}
+	if len(l) == 0 {
+		return e.newRP(Step{K: "rp_oidc", P: s.P, Client: s.Client, Opt: (s.Opt & 4) * 2})
+	}
+	return pick(l, s.I), nil
+}
+
+// pkjwt: the provider accepts private_key_jwt client authentication
+func (p *provInst) pkjwt() bool { return p.pcfg == nil || !p.pcfg.NoPKJWT }
 
 // doStep executes one step; it returns an error text when the step did not do what it does in a fresh process.
 func (e *orderEnv) doStep(s Step) (created *provInst, problem string, usedClient int) {
@@ -980,7 +1049,9 @@ func (e *orderEnv) doStep(s Step) (created *provInst, problem string, usedClient
 			hint = t.IDT
 		}
 		u, err := rp.EndSession(e.ctx, r.r, hint, rpLogout, "bye")
-		if err != nil || u == nil || !strings.HasPrefix(u.String(), rpLogout) {
+		if r.clientID != "web" {
+			e.res.Label("call-outcome-not-judged:endsession") // the hint is the web client's; what the provider answers another client is not this check's business
+		} else if err != nil || u == nil || !strings.HasPrefix(u.String(), rpLogout) {
 			return nil, fmt.Sprintf("EndSession: %v %v", err, u), r.client
 		}
 		if hint != "" {
@@ -992,7 +1063,7 @@ func (e *orderEnv) doStep(s Step) (created *provInst, problem string, usedClient
 		if err != nil {
 			return nil, "constructor: " + err.Error(), s.Client
 		}
-		if err := rp.RevokeToken(e.ctx, r.r, "no-such-token", "access_token"); err != nil {
+		if err := rp.RevokeToken(e.ctx, r.r, "no-such-token", "access_token"); err != nil && r.clientID == "web" {
 			return nil, "RevokeToken: " + err.Error(), r.client
 		}
 		return nil, "", r.client
@@ -1016,13 +1087,41 @@ func (e *orderEnv) doStep(s Step) (created *provInst, problem string, usedClient
 			return nil, "constructor: " + err.Error(), s.Client
 		}
 		tag := fmt.Sprintf("cx%d", len(e.res.Labels))
-		q := vkit.AuthParams(r.p.store.Clients["web"], rpRedirect, "code", "openid profile", "st-"+tag, "") // no nonce: the default verifier expects none
+		q := vkit.AuthParams(r.p.store.Clients[r.clientID], rpRedirect, "code", "openid profile", "st-"+tag, "") // no nonce: the default verifier expects none
+		var xopts []rp.CodeExchangeOpt
+		strict := true
+		switch r.clientID {
+		case "native":
+			// a public client: PKCE; its registered redirect URI is another one
+			verifier := "verifier-" + tag + "-0123456789012345678901234567890123456789"
+			q.Set("code_challenge", vkit.S256(verifier))
+			q.Set("code_challenge_method", "S256")
+			xopts = append(xopts, rp.WithCodeVerifier(verifier))
+			strict = false // the RP's redirect URI is not the one registered for the public client
+		case keyWebID:
+			// registered with a key: the application signs the assertion with the RP's signer, as CodeExchangeHandler does
+			if sg := r.r.Signer(); sg != nil {
+				a, err := client.SignedJWTProfileAssertion(keyWebID, []string{r.p.issuer}, time.Hour, sg)
+				if err != nil {
+					return nil, "SignedJWTProfileAssertion: " + err.Error(), r.client
+				}
+				xopts = append(xopts, rp.WithClientAssertionJWT(a))
+			}
+			strict = r.p.pkjwt()
+		}
+		if !strict {
+			e.res.Label("call-outcome-not-judged:codeexchange")
+		}
 		f := r.p.ag.RunAuth(q, "u2")
 		if f.Code == "" {
+			if !strict {
+				return nil, "", r.client
+			}
 			return nil, "no code: " + f.AuthResp.Describe(), r.client
 		}
-		tokens, err := rp.CodeExchange[*oidc.IDTokenClaims](e.ctx, f.Code, r.r)
-		if err != nil || tokens.IDTokenClaims == nil || tokens.IDTokenClaims.Subject != "u2" {
+		e.own(fmt.Sprintf("arg:codeexchange-options#%d", len(e.owned)), xopts)
+		tokens, err := rp.CodeExchange[*oidc.IDTokenClaims](e.ctx, f.Code, r.r, xopts...)
+		if strict && (err != nil || tokens.IDTokenClaims == nil || tokens.IDTokenClaims.Subject != "u2") {
 			return nil, fmt.Sprintf("CodeExchange: %v", err), r.client
 		}
 		return nil, "", r.client
@@ -1053,11 +1152,156 @@ func (e *orderEnv) doStep(s Step) (created *provInst, problem string, usedClient
 		if m != "" {
 			return nil, m, x.client
 		}
+		if s.Opt&1 == 1 {
+			// the application's long-lived lists; whether the provider's storage grants that audience is not judged
+			e.res.Label("call-outcome-not-judged:exchange")
+			_, _ = tokenexchange.ExchangeToken(e.ctx, x.t, t.IDT, oidc.IDTokenType, "", "", e.args.resource, e.args.audience, e.args.scopes[s.Opt>>1&1], oidc.AccessTokenType)
+			return nil, "", x.client
+		}
 		resp, err := tokenexchange.ExchangeToken(e.ctx, x.t, t.IDT, oidc.IDTokenType, "", "", nil, nil, []string{"openid"}, oidc.AccessTokenType)
 		if err != nil || resp.AccessToken == "" {
 			return nil, fmt.Sprintf("ExchangeToken: %v", err), x.client
 		}
 		return nil, "", x.client
+	case "clientcreds":
+		// rp.ClientCredentials on a relying party of any registration, with no endpoint parameters or with one of the
+		// application's long-lived parameter objects (the same object goes to every relying party of the case)
+		r, err := e.rpFor(s, false)
+		if err != nil {
+			return nil, "constructor: " + err.Error(), s.Client
+		}
+		var params url.Values
+		if s.Opt&3 != 0 {
+			params = e.args.params[(s.Opt&3)%len(e.args.params)]
+		}
+		e.res.Label(fmt.Sprintf("clientcreds:rp-with-key=%v:params=%v", r.r.Signer() != nil, params != nil))
+		tok, err := rp.ClientCredentials(e.ctx, r.r, params)
+		if r.clientID != "web" {
+			// a public client has no credentials; which of its credentials a client with a key and a secret presents for
+			// this grant is not this property's business
+			e.res.Label("call-outcome-not-judged:clientcreds")
+			return nil, "", r.client
+		}
+		if err != nil || tok.AccessToken == "" {
+			return nil, fmt.Sprintf("ClientCredentials (client %s, endpoint parameters nil=%v): %v", r.clientID, params == nil, err), r.client
+		}
+		return nil, "", r.client
+	case "authurl":
+		r, err := e.rpFor(s, false)
+		if err != nil {
+			return nil, "constructor: " + err.Error(), s.Client
+		}
+		u, err := url.Parse(rp.AuthURL("st-authurl", r.r, e.args.authOpts...))
+		if err != nil || u.Query().Get("state") != "st-authurl" || u.Query().Get("prompt") != "login" || u.Query().Get("ui_locales") != "de" || u.Query().Get("client_id") != r.clientID {
+			return nil, fmt.Sprintf("AuthURL: %v %v", err, u), r.client
+		}
+		return nil, "", r.client
+	case "deviceauth":
+		r, err := e.rpFor(s, true)
+		if err != nil {
+			return nil, "constructor: " + err.Error(), s.Client
+		}
+		d, err := rp.DeviceAuthorization(e.ctx, e.args.scopes[s.Opt&1], r.r, nil)
+		if err == nil && d != nil {
+			e.devAll = append(e.devAll, devAnswerOfResp(fmt.Sprintf("provider %d", r.p.idx), fmt.Sprintf("request %d (a deviceauth step)", len(e.devAll)), d))
+		}
+		if r.clientID != "web" {
+			e.res.Label("call-outcome-not-judged:deviceauth")
+			return nil, "", r.client
+		}
+		if err != nil || d.DeviceCode == "" {
+			return nil, fmt.Sprintf("DeviceAuthorization: %v", err), r.client
+		}
+		return nil, "", r.client
+	case "refresh":
+		r, err := e.rpFor(s, true)
+		if err != nil {
+			return nil, "constructor: " + err.Error(), s.Client
+		}
+		t, m := e.tokenOf(r.p)
+		if m != "" {
+			return nil, m, r.client
+		}
+		nt, err := rp.RefreshTokens[*oidc.IDTokenClaims](e.ctx, r.r, t.RT, "", "")
+		r.p.tok = nil // the refresh token is spent
+		if r.clientID != "web" || (r.p.pcfg != nil && r.p.pcfg.NoRefresh) {
+			e.res.Label("call-outcome-not-judged:refresh")
+			return nil, "", r.client
+		}
+		if err != nil || nt.AccessToken == "" {
+			return nil, fmt.Sprintf("RefreshTokens: %v", err), r.client
+		}
+		return nil, "", r.client
+	case "callraw":
+		// the request structs an application fills once and hands to the Call* functions by pointer
+		r, err := e.rpFor(s, true)
+		if err != nil {
+			return nil, "constructor: " + err.Error(), s.Client
+		}
+		e.res.Label(fmt.Sprintf("callraw:%d", s.Opt&3))
+		switch s.Opt & 3 {
+		case 0:
+			_ = client.CallRevokeEndpoint(e.ctx, e.args.revReq, nil, r.r)
+		case 1:
+			_, _ = client.CallEndSessionEndpoint(e.ctx, e.args.esReq, nil, r.r)
+		case 2:
+			if d, err := client.CallDeviceAuthorizationEndpoint(e.ctx, e.args.ccReq, r.r, nil); err == nil && d != nil {
+				e.devAll = append(e.devAll, devAnswerOfResp(fmt.Sprintf("provider %d", r.p.idx), fmt.Sprintf("request %d (a callraw step)", len(e.devAll)), d))
+			}
+		default:
+			if len(e.tes) == 0 {
+				if _, err := e.newTE(Step{K: "te", P: s.P, Client: s.Client}); err != nil {
+					return nil, "constructor: " + err.Error(), s.Client
+				}
+			}
+			x := pick(e.tes, s.I)
+			_, _ = client.CallTokenEndpoint(e.ctx, e.args.rtReq, x.t)
+			return nil, "", x.client
+		}
+		return nil, "", r.client
+	case "handlers":
+		// the RP's HTTP handlers, built with the application's long-lived option list and served once each
+		r, err := e.rpFor(s, true)
+		if err != nil {
+			return nil, "constructor: " + err.Error(), s.Client
+		}
+		login := rp.AuthURLHandler(func() string { return "st-handlers" }, r.r, e.args.urlOpts...)
+		w := httptest.NewRecorder()
+		login(w, httptest.NewRequest("GET", "https://rp.example.com/login", nil))
+		if loc, _ := url.Parse(w.Header().Get("Location")); w.Code != http.StatusFound || loc == nil || loc.Query().Get("login_hint") != "someone" || loc.Query().Get("state") != "st-handlers" {
+			return nil, fmt.Sprintf("AuthURLHandler answered %d, Location %q", w.Code, w.Header().Get("Location")), r.client
+		}
+		cb := rp.CodeExchangeHandler(func(w http.ResponseWriter, _ *http.Request, _ *oidc.Tokens[*oidc.IDTokenClaims], _ string, _ rp.RelyingParty) {
+			w.WriteHeader(http.StatusNoContent)
+		}, r.r, e.args.urlOpts...)
+		cb(httptest.NewRecorder(), httptest.NewRequest("GET", rpRedirect+"?error=access_denied&state=st-handlers", nil))
+		return nil, "", r.client
+	case "tokensource":
+		// a JWT profile token source of the service account: key bytes and scope list are the application's
+		p := e.prov(s.P)
+		src, err := profile.NewJWTProfileTokenSource(e.ctx, p.issuer, "svc", "ksvc", e.args.keyPEM, e.args.scopes[s.Opt&1], profile.WithHTTPClient(e.clientOf(s.Client)))
+		if err != nil {
+			return nil, "NewJWTProfileTokenSource: " + err.Error(), s.Client
+		}
+		if _, err := src.TokenCtx(e.ctx); err != nil && p.pkjwt() {
+			return nil, "TokenCtx: " + err.Error(), s.Client
+		}
+		return nil, "", s.Client
+	case "formrequest":
+		// pkg/http directly: a form request from a long-lived request struct, sent through a client of the case
+		p := e.prov(s.P)
+		req, err := httphelper.FormRequest(e.ctx, p.issuer+expectedPath(p.ep, "token"), e.args.ccReq, client.Encoder, nil)
+		if err != nil {
+			return nil, "FormRequest: " + err.Error(), s.Client
+		}
+		var out map[string]any
+		_ = httphelper.HttpRequest(e.clientOf(s.Client), req, &out)
+		if s.Opt&1 == 1 {
+			if _, err := httphelper.URLEncodeParams(e.args.rtReq, client.Encoder); err != nil {
+				return nil, "URLEncodeParams: " + err.Error(), s.Client
+			}
+		}
+		return nil, "", s.Client
 	case "devicepoll":
 		p := e.prov(s.P)
 		web := p.store.Clients["web"]
@@ -1137,6 +1381,7 @@ func runOrder(c Case) *vkit.Result {
 	for len(e.supplied) < 2 {
 		e.supplied = append(e.supplied, &http.Client{Transport: e.rt})
 	}
+	e.args = newCallerArgs()
 	e.start = e.take()
 	e.prev = e.start
 	// the references: issuer functions with default options, built before anything else
